@@ -144,7 +144,7 @@ inline void m_plans(const Edge& e, const Parsed& P, unsigned props) {
 				m.succ &= static_cast<uint8_t>(~clearLater);
 			}
 			// a headless root has no outcome callback to deliver; the plan is cleared all the same
-			if (expectOutcome && !VX_HEAD) { expectOutcome = 0; pm_clear(m); }
+			if (expectOutcome && !head_defines_outcome(expectOutcome)) { expectOutcome = 0; pm_clear(m); }   // (also: a head that does not define that callback)
 		}
 	};
 	auto apply_pending_clears = [&]() {
@@ -231,8 +231,8 @@ inline void m_plans(const Edge& e, const Parsed& P, unsigned props) {
 	}
 	// ---- C09
 	if (c09) {
-		if (VX_HEAD && cycle && expectOutcome && !outcomeSeen) flag(C09, "warranted-outcome-missing", e, "%s was warranted and not delivered", METH_NAME[expectOutcome]);
-		if (VX_HEAD && cycle && activeFailedThisCycle && planNonEmptyAtStep && !(outcomeSeen && expectOutcome == M_PLAN_FAIL)) flag(C09, "failure-not-reported", e, "active state failed with a non-empty plan, planFailed not delivered in this cycle");
+		if (cycle && expectOutcome && !outcomeSeen) flag(C09, "warranted-outcome-missing", e, "%s was warranted and not delivered", METH_NAME[expectOutcome]);
+		if (head_defines_outcome(M_PLAN_FAIL) && cycle && activeFailedThisCycle && planNonEmptyAtStep && !(outcomeSeen && expectOutcome == M_PLAN_FAIL)) flag(C09, "failure-not-reported", e, "active state failed with a non-empty plan, planFailed not delivered in this cycle");
 		if (!ghost && (e.post.exists != 0) != m.exists) flag(C09, "plan-existence", e, "machine believes a plan %s; a task %s added since activation (raw flag 0x%02x)", e.post.exists ? "exists" : "does not exist", m.exists ? "was" : "was never", e.post.exists);
 		if (!ghost && e.post.fail != m.fail) flag(C09, "failure-report-lifetime", e, "outstanding failure reports %x, expected %x", e.post.fail, m.fail);
 		if (checkEmptyAfterOutcome && e.post.planlen) flag(C09, "plan-not-empty-after-outcome", e, "%d tasks after the outcome callback returned", e.post.planlen);
@@ -290,6 +290,7 @@ inline void m10(const Edge& e, const Parsed&) {
 	bool same = e.post.planlen == m.len; for (int k = 0; same && k < m.len && k < MAXPLAN; ++k) same = task_eq(e.post.plan[k], m.plan[k]);
 	if (!same && !(mayShrink && plan_subseq(e.post.plan, n, m.plan, m.len))) flag(C10, "iteration-differs-from-appended-sequence", e, "after the call iteration yields %d tasks, %d were appended and not removed", e.post.planlen, m.len);
 	if ((e.post.planbool != 0) != (e.post.planlen > 0)) flag(C10, "emptiness-test", e, "bool(plan)=%d with %d tasks", e.post.planbool, e.post.planlen);
+	if (e.post.planbool > 1) flag(C10, "plan-views-disagree", e, "after the call the read-only plan of the (const) machine and its mutable plan disagree (emptiness test or iteration)");
 	if (e.post.planlen > TASK_CAP) flag(C10, "capacity-exceeded", e, "%d tasks, capacity %d", e.post.planlen, TASK_CAP);
 	if (e.post.active == NONE8 && e.post.planlen) flag(C10, "plan-survives-deactivation", e, "%d tasks on an inactive machine", e.post.planlen);
 }
@@ -490,7 +491,7 @@ inline void extra_monitors(const Edge& e, const Parsed& P, unsigned props) {
 }
 
 // =========================================================================== companions (second instance)
-struct CompOpts { bool replica = false, copy = false; int copy_dev = 1; uint8_t* prekey = nullptr; uint8_t* postkey = nullptr; size_t keylen = 0; const uint8_t* presnap = nullptr; };
+struct CompOpts { bool replica = false, copy = false, move = false; int copy_dev = 1; uint8_t* prekey = nullptr; uint8_t* postkey = nullptr; size_t keylen = 0; const uint8_t* presnap = nullptr; };
 static CompOpts g_comp;
 
 inline bool only_lifecycle(int from, int* nlife) {
@@ -565,7 +566,30 @@ inline void companion_copy(const Edge& e) {
 #ifdef VX_MSAN
 	__msan_poison(g_slot[1].bytes, sizeof g_slot[1].bytes);
 #endif
-	g_alloc.in_lib = 1; new (g_slot[1].bytes) Inst(*inst(0)); g_alloc.in_lib = 0;
+#if VX_CTX != 2   /* a machine over a reference context cannot be move-constructed (the library does not compile that) */
+	if (g_comp.move) {   // the companion is move-constructed from a copy (the moved-from object is abandoned, not destroyed)
+		memset(g_slot[2].bytes, 0x5C, sizeof g_slot[2].bytes);
+#ifdef VX_MSAN
+		__msan_poison(g_slot[2].bytes, sizeof g_slot[2].bytes);
+#endif
+		g_alloc.in_lib = 1; new (g_slot[2].bytes) Inst(*inst(0)); new (g_slot[1].bytes) Inst(static_cast<Inst&&>(*inst(2))); g_alloc.in_lib = 0;
+#if !VX_MANUAL
+		// every object exits what it reports as active when it is destroyed, the moved-from one included (C01: enter/exit paired per object)
+		if (tx_empty(e.pre.req)) {
+			const uint8_t a2 = inst(2)->activeStateId(); uint8_t mask2 = 0; for (int k = 0; k < N; ++k) if (inst(2)->isActive(static_cast<ffsm2::StateID>(k))) mask2 |= static_cast<uint8_t>(1u << k);
+			G.mode = DM_QUIET; { uint16_t none = 0; G.begin(0, &none, &none); } G.cur = inst(2);
+			g_alloc.in_lib = 1; inst(2)->~Inst(); g_alloc.in_lib = 0;
+			int nexit = 0; uint8_t who = NONE8; int others = 0;
+			for (int i = 0; i < G.nev; ++i) { const Ev& v = G.tr[i]; if (v.kind != EV_CB || v.inj) continue; if (v.meth == M_EXIT && v.sid != ROOT) { ++nexit; who = v.sid; } else if (!(v.meth == M_EXIT && v.sid == ROOT)) ++others; }
+			Edge em = e; em.tr = G.tr; em.nev = G.nev;
+			if (a2 == NONE8 ? nexit != 0 : (nexit != 1 || who != a2) || others || (a2 != NONE8 && mask2 != (1u << a2)))
+				flag(C01, "moved-from-destruction", em, "after a move construction the moved-from machine reports active=%d (isActive mask %x); its destruction delivered %d exit callback(s), last to state %d", a2 == NONE8 ? -1 : a2, mask2, nexit, who == NONE8 ? -1 : who);
+			G.cur = inst(0);
+		}
+#endif
+	} else
+#endif
+	{ g_alloc.in_lib = 1; new (g_slot[1].bytes) Inst(*inst(0)); g_alloc.in_lib = 0; }
 	G.mode = g_strategy_mode ? DM_STRATEGY : DM_DFS; G.begin(e.ndev, e.dev_pos, e.dev_alt);
 	const OpResult res2 = apply(e.op, 1);
 	++n_companion_runs;
